@@ -52,6 +52,10 @@ def witness_search(tier, seed):
         for bname in ("COPY_ANYWAY", "IGNORE", "ERROR_UNLESS_DEFAULT", "ERROR", None):
             for vname, v in values.items():
                 s = SSCSimfile.blank()
+                import simfile.convert as _cv
+                for lst in _cv.INVALID_PROPERTIES[SMSimfile].values():     # a blank SSC simfile carries several of them
+                    for k in lst:
+                        s.pop(k, None)
                 for k in list(kinds):
                     s.pop(k, None)
                 dv = CV.DEFAULT_VALUES.get(prop, "")
